@@ -421,22 +421,32 @@ SHADOWING = [
      {"model": "WITH base AS (SELECT d AS x FROM u), fin AS (SELECT x FROM base) SELECT x FROM fin"}, {"o0": {("u", "d")}, "o1": {("t", "a")}}),
     ("WITH c AS (SELECT a AS x FROM t), d AS (SELECT x FROM c) SELECT d.x AS o0 FROM (WITH c AS (SELECT d AS x FROM u), d AS (SELECT x FROM c) SELECT x FROM d) AS d",
      None, {"o0": {("u", "d")}}),
+    # dialect-specific presentations (5-tuples: + dialect, key suffix): set operations matched BY NAME, a CTE column list shorter
+    # than the body's projection list
+    ("SELECT a AS o0, b AS o1 FROM t UNION ALL BY NAME SELECT d AS o1, a AS o0 FROM u", None, {"o0": {("t", "a"), ("u", "a")}, "o1": {("t", "b"), ("u", "d")}}, "duckdb", "by-name"),
+    ("SELECT a AS o0, b AS o1 FROM t UNION BY NAME SELECT d AS o1, a AS o0 FROM u UNION ALL BY NAME SELECT c AS o0, a AS o1 FROM t", None,
+     {"o0": {("t", "a"), ("u", "a"), ("t", "c")}, "o1": {("t", "b"), ("u", "d"), ("t", "a")}}, "duckdb", "by-name"),
+    ("WITH w(o0) AS (SELECT a, b FROM t) SELECT * FROM w", None, {"o0": {("t", "a")}, "b": {("t", "b")}}, "snowflake", "short-column-list"),
+    ("WITH w(o0) AS (SELECT a, b FROM t) SELECT * FROM w", None, {"o0": {("t", "a")}, "b": {("t", "b")}}, "postgres", "short-column-list"),
 ]
 
 
 def check_shadowing(i):
-    sql, sources, flows = SHADOWING[i]
+    sql, sources, flows, *rest = SHADOWING[i]
+    dialect, fam = (rest + [None, None])[:2] if rest else (None, None)
+    fam = fam or "shadowing"
     viol, evals, calls = [], 0, 0
     for name, want in flows.items():
-        g = _lineage(name, sql, sources, None)
+        g = _lineage(name, sql, sources, dialect)
         calls += 1
         evals += 1
-        inp = {"path": f"shadowing.{i}", "column": name, "dialect": None, "form": "as-written"}
-        shown = sql if not sources else f"{sql} with sources={sources}"
+        # dialect None in the record: these statements exist in one presentation only (no ".<dialect>-only" key suffix)
+        inp = {"path": f"shadowing.{i}", "column": name, "dialect": None, "read": dialect, "form": "as-written"}
+        shown = (sql if not sources else f"{sql} with sources={sources}") + (f" [{dialect}]" if dialect else "")
         if g[0] == "exc":
-            viol.append((f"c17:exception:{g[1]}:shadowing", f"lineage({name!r}, {shown!r}) raised {g[1]}: {g[2]}", inp))
+            viol.append((f"c17:exception:{g[1]}:{fam}", f"lineage({name!r}, {shown!r}) raised {g[1]}: {g[2]}", inp))
         elif g[1] != want:
-            viol.append((f"c17:{'missing-leaf' if want - g[1] else 'extra-leaf'}:shadowing", f"lineage({name!r}, {shown!r}): leaves {_fmt(g[1])}, flow {_fmt(want)}", inp))
+            viol.append((f"c17:{'missing-leaf' if want - g[1] else 'extra-leaf'}:{fam}", f"lineage({name!r}, {shown!r}): leaves {_fmt(g[1])}, flow {_fmt(want)}", inp))
     return evals, calls, viol, len(sql)
 
 
